@@ -6,6 +6,7 @@ use crate::Case;
 pub mod bitvec;
 pub mod iters;
 pub mod prims;
+pub mod total;
 pub mod trees;
 pub mod vectors;
 
@@ -15,6 +16,7 @@ pub fn cases(cfg: &Cfg) -> Vec<Case> {
         "C01" => trees::cases_c01(cfg),
         "C02" => trees::cases_c02(cfg),
         "C03" => trees::cases_c03(cfg),
+        "C04" => total::cases_c04(cfg),
         "C05" => vectors::cases_c05(cfg),
         "C06" => vectors::cases_c06(cfg),
         "C07" => vectors::cases_c07(cfg),
